@@ -100,6 +100,7 @@ type SpecEnv struct {
 	self string // name of function (diagnostics)
 	free map[string]freeBinding
 	qdepth int // nesting depth of quantifiers (bound variable names are unique per depth)
+	derefs *[]*Term // when set: collects "p != nil" for every pointer dereferenced (modifies items)
 }
 
 type specError struct{ msg string }
@@ -525,6 +526,8 @@ func (env *SpecEnv) evalField(e *Expr) SVal {
 		ptr := Value{T: b.T}
 		if b.T == nil {
 			ptr.LV = b.LV // an interior pointer held in a register
+		} else if env.derefs != nil {
+			*env.derefs = append(*env.derefs, Not(Eq(b.T, Int(0))))
 		}
 		lv := env.x.fieldLV(ptr, pt.Elem(), i)
 		t := env.x.readLV(env.st, lv)
@@ -738,6 +741,17 @@ func (env *SpecEnv) evalCall(e *Expr) SVal {
 			env.errf(e, "no method value %s.%s is ever taken in /repo", a.GT, e.Args[1].Name)
 		}
 		return SVal{T: Mk(sortFn, Int(int64(env.x.fnID(f))), env.x.boundEnv(env.st, a.T, a.GT))}
+	case "group":
+		// group(g): the identity of the sync.Group held in local variable g
+		a := env.eval(e.Args[0])
+		if a.T == nil {
+			env.errf(e, "group() of a non-value")
+		}
+		g, ok := env.x.groupOf[a.T]
+		if !ok {
+			env.errf(e, "group(): not a value obtained from Pool.Group()")
+		}
+		return SVal{T: g}
 	case "contents":
 		a := env.eval(e.Args[0])
 		if a.T == nil || a.T.Sort != sortSlice || a.GT == nil {
